@@ -188,6 +188,10 @@ def requires(e, bundle):
         col = cols.get(vals["colRef"])
         if sec is None or col is None or col["parentId"] != sec["tableRef"]:
           return "action %d gives a field a column of another table" % i
+        if not plain(vals["colRef"]) or col["colId"] == "group":
+          return "action %d makes a field show a hidden column (manualSort / helper / group)" % i
+        if any(f2["parentId"] == sec["id"] and f2["colRef"] == vals["colRef"] for f2 in fields.values()):
+          return "action %d shows a column twice in one section" % i
     if name in ("CreateViewSection", "UpdateSummaryViewSection"):
       gb = a[4] if name == "CreateViewSection" else a[2]
       if gb is not None:
@@ -289,7 +293,9 @@ def structure_edit(e, g):
   if k == 18 and f and sec:
     s = next((s for s in secs if s["id"] == f["parentId"]), None)
     if s:
-      same = [x["id"] for x in cols if x["parentId"] == s["tableRef"]]
+      same = [x["id"] for x in cols if x["parentId"] == s["tableRef"] and x["colId"] != "manualSort"
+              and x["colId"] != "group" and not x["colId"].startswith("gristHelper_")
+              and not any(f2["parentId"] == s["id"] and f2["colRef"] == x["id"] for f2 in fields)]
       if same: return [["UpdateRecord", "_grist_Views_section_field", f["id"], {"colRef": rng.choice(same)}]]
   if k == 19 and sec and len(secs) > 1:
     src = rng.choice(secs)
@@ -377,7 +383,8 @@ def main():
     "current metadata, 6% undo of the previous bundle; not a proof",
     "requires (checked by the monitor on the pre-state of every bundle; a history that breaks it is "
     "not evaluated further): record edits of _grist_* tables only write reference values that "
-    "exist, as first action of their bundle; a field only gets a column of its section's table; "
+    "exist, as first action of their bundle; a field only gets a visible column (not manualSort / "
+    "gristHelper_* / group) of its section's table that the section does not show yet; "
     "summary sections are not grouped by manualSort / gristHelper_* columns",
     "a history in which a FAILED bundle left a trace in the metadata (C04's concern) is not "
     "evaluated further",
